@@ -70,7 +70,7 @@ def run_verus(path, rlimit=None, seed=None, timeout=1800, extra=None, multiple_e
 REFUTE = ("postcondition not satisfied", "precondition not satisfied", "assertion failed", "invariant not satisfied",
           "possible arithmetic underflow/overflow", "decreases not satisfied", "possible division by zero",
           "recommendation not met", "unreachable", "loop invariant", "could not prove termination",
-          "cannot show invariant", "index out of bounds", "possible bit shift")
+          "cannot show invariant", "index out of bounds", "possible bit shift", "unable to prove")
 UNDECIDED = ("Resource limit", "rlimit", "timed out", "resource limit")
 
 
